@@ -127,4 +127,141 @@ theorem toString_nat (n : Nat) : toString n = String.ofList (Nat.toDigits 10 n) 
 theorem bytesOf_toString (n : Nat) : bytesOf (toString n) = digitBytes n := by
   rw [toString_nat, bytesOf_ascii _ (digits_ascii n)]; rfl
 
+def bytesOfChars (cs : List Char) : List Nat := (cs.flatMap String.utf8EncodeChar).map (·.toNat)
+
+theorem bytesOf_ofList (cs : List Char) : bytesOf (String.ofList cs) = bytesOfChars cs := by
+  unfold bytesOf bytesOfChars
+  rw [show (String.ofList cs).toUTF8 = cs.utf8Encode from String.toByteArray_ofList]
+  unfold List.utf8Encode
+  rw [toByteArray_toList]
+
+theorem bytesOfChars_append (a b : List Char) : bytesOfChars (a ++ b) = bytesOfChars a ++ bytesOfChars b := by
+  simp [bytesOfChars, List.flatMap_append]
+
+theorem bytesOfChars_toList (s : String) : bytesOfChars s.toList = bytesOf s := by
+  rw [← bytesOf_ofList, String.ofList_toList]
+
+theorem takeString_step (f b : Nat) (rest acc : List Nat) (h7 : b ≠ 7) (h27 : b ≠ 27) :
+    takeString (f + 1) (b :: rest) acc = takeString f rest (acc ++ [b]) := by
+  rw [takeString.eq_def]
+  split <;> simp_all
+
+theorem takeString_run (bs : List Nat) (h : ∀ b ∈ bs, b ≠ 7 ∧ b ≠ 27) (rest acc : List Nat) (n : Nat) :
+    takeString (n + bs.length + 1) (bs ++ 27 :: 92 :: rest) acc = (acc ++ bs, rest) := by
+  induction bs generalizing acc with
+  | nil => simp [takeString]
+  | cons b r ih =>
+    have hb := h b (by simp)
+    have e : n + (b :: r).length + 1 = (n + r.length + 1) + 1 := by simp; omega
+    rw [e, List.cons_append, takeString_step _ _ _ _ hb.1 hb.2, ih (fun x hx => h x (by simp [hx]))]
+    simp
+
+theorem split_go_acc (sep : Nat) (bs cur : List Nat) (acc : List (List Nat)) :
+    splitOnByte.go sep bs cur acc = acc ++ splitOnByte.go sep bs cur [] := by
+  induction bs generalizing cur acc with
+  | nil => simp [splitOnByte.go]
+  | cons b r ih =>
+    simp only [splitOnByte.go]
+    split
+    · rw [ih [] (acc ++ [cur]), ih [] ([] ++ [cur])]; simp
+    · exact ih _ _
+
+theorem split_go_ne_nil (sep : Nat) (bs cur : List Nat) : splitOnByte.go sep bs cur [] ≠ [] := by
+  induction bs generalizing cur with
+  | nil => simp [splitOnByte.go]
+  | cons b r ih =>
+    simp only [splitOnByte.go]
+    split
+    · rw [split_go_acc]; simp
+    · exact ih _
+
+/-- An OSC whose payload starts with `176;` is one `other` token with the raw bytes, whatever follows. -/
+theorem oscTok_176 (bs : List Nat) (raw : List Nat) :
+    oscTok ([49, 55, 54, 59] ++ bs) raw = .other (VaxisModel.Spec.Tokenize.hexOfBytes raw) := by
+  have hs : splitOnByte 59 ([49, 55, 54, 59] ++ bs) = [49, 55, 54] :: splitOnByte.go 59 bs [] [] := by
+    simp only [splitOnByte, List.cons_append, List.nil_append, splitOnByte.go]
+    simp only [show (49 = 59) = False by decide, show (55 = 59) = False by decide, show (54 = 59) = False by decide, if_false, if_true]
+    rw [split_go_acc]; rfl
+  unfold oscTok
+  rw [hs]
+  have hne := split_go_ne_nil 59 bs []
+  cases hg : splitOnByte.go 59 bs [] [] with
+  | nil => exact absurd hg hne
+  | cons x xs =>
+    cases xs with
+    | nil => simp
+    | cons u more =>
+      cases more with
+      | nil => simp
+      | cons m more' => simp
+
+theorem lex_osc176 (bs : List Nat) (h : ∀ b ∈ bs, b ≠ 7 ∧ b ≠ 27) :
+    tokens [[32]] ([27, 93, 49, 55, 54, 59] ++ bs ++ [27, 92]) =
+      [.other (VaxisModel.Spec.Tokenize.hexOfBytes ([27, 93, 49, 55, 54, 59] ++ bs))] := by
+  have h' : ∀ b ∈ [49, 55, 54, 59] ++ bs, b ≠ 7 ∧ b ≠ 27 := by
+    intro b hb
+    simp only [List.mem_append, List.mem_cons, List.mem_nil_iff, or_false] at hb
+    rcases hb with (rfl | rfl | rfl | rfl) | hb
+    · decide
+    · decide
+    · decide
+    · decide
+    · exact h b hb
+  have ht := takeString_run ([49, 55, 54, 59] ++ bs) h' [] [] 2
+  have e1 : [27, 93, 49, 55, 54, 59] ++ bs ++ [27, 92] = 27 :: 93 :: (([49, 55, 54, 59] ++ bs) ++ [27, 92]) := by simp
+  rw [e1]
+  simp only [tokens]
+  rw [show (27 :: 93 :: (([49, 55, 54, 59] ++ bs) ++ [27, 92])).length + 1 = ((([49, 55, 54, 59] ++ bs) ++ [27, 92]).length + 2) + 1 by simp]
+  rw [tokenize]
+  have e2 : (([49, 55, 54, 59] ++ bs) ++ [27, 92]).length + 1 = 2 + ([49, 55, 54, 59] ++ bs).length + 1 := by simp; omega
+  rw [e2, ht]
+  simp only [List.nil_append, tokenize_nil, oscTok_176]
+  simp
+
+theorem bytesOfChars_ascii (cs : List Char) (h : ∀ c ∈ cs, c.toNat < 128) : bytesOfChars cs = cs.map Char.toNat := by
+  rw [← bytesOf_ofList, bytesOf_ascii cs h]
+
+theorem parse_go_digits (cs : List Char) (h : ∀ c ∈ cs, c.isDigit = true) (cur : Nat) (sub : List Nat) (acc : List (List Nat)) :
+    parseParams.go (cs.map Char.toNat) cur sub acc = acc ++ [sub ++ [Nat.ofDigitChars 10 cs cur]] := by
+  induction cs generalizing cur with
+  | nil => simp [parseParams.go]
+  | cons c r ih =>
+    have hc := h c (by simp)
+    have hd : isDigit c.toNat = true := by
+      simp only [Char.isDigit, Bool.and_eq_true, decide_eq_true_eq, ge_iff_le, UInt32.le_iff_toNat_le] at hc
+      simp [isDigit]; exact ⟨hc.1, hc.2⟩
+    simp only [List.map_cons, parseParams.go, hd, if_true]
+    rw [ih (fun x hx => h x (by simp [hx])), Nat.ofDigitChars_cons]
+    have e0 : '0'.toNat = 48 := by decide
+    have e1 : cur * 10 + (c.toNat - 48) = 10 * cur + (c.toNat - '0'.toNat) := by rw [e0]; omega
+    rw [e1]
+
+theorem parseParams_digits (n : Nat) : parseParams (digitBytes n) = [[n]] := by
+  have hne : (digitBytes n).isEmpty = false := by
+    simp [digitBytes, Nat.toDigits_ne_nil]
+  unfold parseParams
+  simp only [hne, Bool.false_eq_true, if_false]
+  rw [digitBytes, parse_go_digits _ (fun c hc => Nat.isDigit_of_mem_toDigits (by decide) (by decide) hc)]
+  simp [Nat.ofDigitChars_toDigits]
+
+theorem lex_csi_sp_q (n : Nat) :
+    tokens [[32]] ([27, 91] ++ digitBytes n ++ [32, 113]) = [.cursorStyle n] := by
+  have hr := digitBytes_range n
+  have hp : ∀ d ∈ digitBytes n, isParamByte d = true := by
+    intro d hd; have := hr d hd; simp [isParamByte]; omega
+  have h1 := takeWhile_run isParamByte (digitBytes n) 32 [113] hp (by decide)
+  cases hds : digitBytes n with
+  | nil => simp [digitBytes, Nat.toDigits_ne_nil] at hds
+  | cons d ds' =>
+    have hd := hr d (by rw [hds]; simp)
+    rw [hds] at h1
+    simp only [tokens, List.cons_append, List.nil_append, List.length_cons]
+    rw [tokenize]
+    have hc : (60 ≤ d ∧ d ≤ 63) = False := by simp; omega
+    simp only [hc, if_false]
+    rw [List.cons_append] at h1
+    rw [h1.1, h1.2]
+    have hpp : parseParams (d :: ds') = [[n]] := by rw [← hds]; exact parseParams_digits n
+    simp [List.takeWhile, List.dropWhile, isInterByte, tokenize_nil, csiTok, hpp]
+
 end VaxisModel.Lemmas.C04Lex
